@@ -110,4 +110,29 @@ theorem stores_agree {M M' : Type} [Inhabited M] [Inhabited M'] (eA : Engine M) 
     · exact absurd hb hne
   rw [hla, hlb, ea, eb]
 
+/-! ### the minutes the fast simulator walks ARE the minutes the normal simulator stores
+
+`fixChunk` (the chunk's minutes as the fast simulator sorts and matches them: each fixed against the previous RAW
+minute) and `C07.fixChain` (the rows the normal simulator writes back and stores: each fixed against the previous FIXED
+row) are the same list — the jump fix reads nothing of the previous candle but its close, which it never changes. -/
+
+theorem fixJump_prev_close (p q x : Candle) (h : p.c = q.c) : fixJump p x = fixJump q x := by
+  unfold fixJump; rw [h]
+
+theorem fixChunk_eq_fixChain (cs : List Candle) : ∀ (p q : Candle), p.c = q.c → fixChunk (some p) cs = C07.fixChain q cs := by
+  induction cs with
+  | nil => intro _ _ _; rfl
+  | cons c cs ih =>
+    intro p q h
+    have hc : c.c = (fixJump q c).c :=
+      ((C07.fix_jump_spec q c).elim (fun h => h.2.1) (fun h => by rw [h.2])).symm
+    simp only [fixChunk, C07.fixChain]
+    rw [fixJump_prev_close p q c h, ih c (fixJump q c) hc]
+
+/-- for a whole chunk: the first minute as it comes, the others as the normal simulator would store them -/
+theorem chunk_path_is_normal_rows (c0 : Candle) (rest : List Candle) :
+    fixChunk none (c0 :: rest) = c0 :: C07.fixChain c0 rest := by
+  simp only [fixChunk]
+  rw [fixChunk_eq_fixChain rest c0 c0 rfl]
+
 end C12
